@@ -16,6 +16,36 @@ GLOB_KEYS = [b"aab", b"abab", b"mississippi", b"xfofoo", b"b\xff\xffz", b"axb"]
 TTLS = [b"100", b"1000", b"100000"]
 
 
+# texts that are almost, or only just, decimal 64-bit integers: stored as values and given as numeric arguments
+NUM_TEXTS = [b" 5", b"5 ", b"\t7", b"12\n", b"\r3", b"+5", b"007", b"-0", b"+0", b"0x10", b"1e3", b"3.0", b"", b"-", b"+", b"5\x00", b"\xef\xbc\x95",
+             b"9223372036854775807", b"-9223372036854775808", b"9223372036854775808", b"-9223372036854775809", b"00000000000000000000001"]
+
+
+def string_corpus():
+    """directed histories that run before the random ones: every almost-number as a stored value and as an argument"""
+    out = []
+    for v in NUM_TEXTS:
+        for cmd in ([b"INCR", b"k1"], [b"DECR", b"k1"], [b"INCRBY", b"k1", b"1"], [b"DECRBY", b"k1", b"1"], [b"APPEND", b"k1", v]):
+            out.append(("stored-num-text", [[b"SET", b"k1", v], cmd, [b"GET", b"k1"]]))
+        for cmd in ([b"INCRBY", b"k1", v], [b"DECRBY", b"k1", v], [b"GETRANGE", b"k1", v, b"-1"], [b"GETRANGE", b"k1", b"0", v], [b"SETRANGE", b"k1", v, b"zz"],
+                    [b"SET", b"k1", b"w", b"EX", v], [b"SET", b"k1", b"w", b"PX", v], [b"EXPIRE", b"k1", v], [b"PEXPIRE", b"k1", v], [b"SETEX", b"k1", v, b"w"]):
+            out.append(("arg-num-text", [[b"SET", b"k1", b"10"], cmd, [b"GET", b"k1"], [b"PERSIST", b"k1"]]))
+    return out
+
+
+def coll_corpus():
+    out = []
+    for v in NUM_TEXTS:
+        out.append(("stored-num-text", [[b"HSET", b"h", b"f1", v], [b"HINCRBY", b"h", b"f1", b"1"], [b"HGET", b"h", b"f1"]]))
+        out.append(("arg-num-text", [[b"HSET", b"h", b"f1", b"1"], [b"HINCRBY", b"h", b"f1", v], [b"HGET", b"h", b"f1"]]))
+        for cmd in ([b"LINDEX", b"l", v], [b"LRANGE", b"l", v, b"-1"], [b"LRANGE", b"l", b"0", v], [b"LTRIM", b"l", v, b"-1"], [b"LTRIM", b"l", b"0", v],
+                    [b"LSET", b"l", v, b"zz"], [b"LREM", b"l", v, b"a"], [b"LPOP", b"l", v], [b"RPOP", b"l", v]):
+            out.append(("arg-num-text", [[b"RPUSH", b"l", b"a", b"b", b"a", b"c"], cmd, [b"LRANGE", b"l", b"0", b"-1"]]))
+        for cmd in ([b"SPOP", b"s", v], [b"SRANDMEMBER", b"s", v]):
+            out.append(("arg-num-text", [[b"SADD", b"s", b"a", b"b", b"c"], cmd, [b"SCARD", b"s"]]))
+    return out
+
+
 def code_quirks():
     """Switches of the Lean model that reproduce the current code (kept next to the generators;
     each is tied to an entry of KNOWN_FINDINGS.json)."""
